@@ -13,11 +13,24 @@ EDGE = ['', 'a;', ' a;', 'a; ', 'a;\n', '\ufeffa;', 'a;\ufeff', '\ta;\x0b', 'a;\
         '\u3000a;\u3000', 'a;\x1e\n']
 
 
-def add(run, tier):
+def add(run, tier, positions=False):
     es5 = importlib.import_module('calmjs.parse.parsers.es5')
     import contracts.parser_init as cp
     cs, lemmas, env = cp.build(es5)
-    cs = [c for c in cs if c.funcname == 'Parser.parse']
+    cs = [c for c in cs if c.funcname in ('Parser.parse', 'Lexer.input')]
+    lexmod = importlib.import_module('calmjs.parse.lexers.es5')
+
+    def lcall(args):
+        lx = lexmod.Lexer()
+        lx.build(optimize=False, lextab=None) if getattr(lx, 'lexer', None) is None else None
+        seen = []
+
+        class Inner(object):
+            def input(self, t):
+                seen.append(t)
+        lx.lexer = Inner()
+        lx.input(args[0])
+        return seen
 
     class Stop(Exception):
         pass
@@ -40,10 +53,15 @@ def add(run, tier):
 
     def post(args, res):
         if isinstance(res, Exception):
-            return 'Parser.parse raised %s before reaching the LALR driver' % type(res).__name__
+            return 'raised %s before handing the text on' % type(res).__name__
         if len(res) != 1 or res[0] != args[0]:
-            return 'the LALR driver must receive the text unchanged, got %r' % (res,)
+            return 'the text must be handed on unchanged, got %r' % (res,)
         return None
     conc = Concrete('calmjs.parse.parsers.es5:Parser.parse', call, post, lambda tier, seed: [(t,) for t in EDGE],
                     bound='%d edge texts (leading/trailing white space, BOM, controls, separators)' % len(EDGE))
-    verify_functions(run, cs, {}, {conc.qualname: conc}, tier=tier)
+    lconc = Concrete('calmjs.parse.lexers.es5:Lexer.input', lcall, post, lambda tier, seed: [(t,) for t in EDGE],
+                     bound='%d edge texts' % len(EDGE))
+    verify_functions(run, cs, {}, {conc.qualname: conc, lconc.qualname: lconc}, tier=tier)
+    if positions:
+        import contracts.lexer as cl
+        verify_functions(run, cl.token_bookkeeping(lexmod), {}, {}, tier=tier)
